@@ -125,6 +125,10 @@ def vf_src(n):
     return vf.src(n)
 
 
+PURE_CONTAINER_METHODS = {"as_ref", "as_slice", "as_str", "borrow", "to_vec", "to_owned", "clone", "join", "concat", "capacity", "hash", "eq", "ne",
+                          "to_string", "as_mut", "as_bytes", "deref", "first", "last", "get", "contains_key", "binary_search", "starts_with", "ends_with"}
+
+
 class Interp:
     def __init__(self, env=None, src_env=None, cfg=default_cfg, on_call=None, max_steps=200000):
         self.scopes = [dict(env or {})]
@@ -656,7 +660,28 @@ class Interp:
             return old
         if fname and fname.split("::")[-1][:1].isupper():
             return ("enum", fname, args)
+        # a function of the analysed crate that the rule neither scripted nor knows: interpret it (so that extracting a helper
+        # function does not change what the rule sees); without a resolver the call stays opaque
+        resolver = getattr(self, "resolve_fn", None)
+        if resolver is not None and fname:
+            fnode = resolver(fname)
+            if fnode is not None:
+                return self.call_fn_node(fnode, args)
         return OPAQUE
+
+    def call_fn_node(self, fnode, args):
+        depth = getattr(self, "_inline_depth", 0)
+        if depth > 30:
+            raise Unknown("inlining depth")
+        names = [inp["pat"]["n"] if "pat" in inp and inp["pat"]["k"] == "pid" else None for inp in fnode["sig"]["inputs"] if "self" not in inp]
+        sub = Interp(env={n: a for n, a in zip(names, args) if n}, src_env=self.src_env, cfg=self.cfg, on_call=self.on_call, max_steps=self.max_steps)
+        sub.consts = self.consts
+        sub.resolve_fn = getattr(self, "resolve_fn", None)
+        sub._inline_depth = depth + 1
+        try:
+            return sub.block(fnode["body"])
+        except Return as r:
+            return r.v
 
     def e_mcall(self, e):
         recv = self.eval(e["r"])
@@ -708,6 +733,17 @@ class Interp:
                 return ("list", list(recv.keys()))
             if m == "values":
                 return ("list", list(recv.values()))
+            if m == "extend" and args:
+                src = args[0]
+                items = src[1] if isinstance(src, tuple) and src[:1] == ("list",) else (list(src) if isinstance(src, MutList) else None)
+                if items is None:
+                    raise Unknown("extend of a map/set model with %r" % (src,))
+                for x in items:
+                    if isinstance(x, tuple) and x[:1] == ("tuple",) and len(x[1]) == 2 and getattr(recv, "is_map", False):
+                        recv[hkey(x[1][0])] = x[1][1]
+                    else:
+                        recv[hkey(x)] = None
+                return ("tuple", [])
         if isinstance(recv, tuple) and recv[:1] == ("entry",):
             if m == "or_insert" and args:
                 if recv[2] not in recv[1]:
@@ -1158,6 +1194,10 @@ class Interp:
                 return recv
             r = self.call_closure(args[0], [recv[1]])
             return ("Some", r) if m == "map" else r
+        if isinstance(recv, (MutList, PyMap)) and m not in PURE_CONTAINER_METHODS:
+            # an unmodelled method of a modelled mutable container may change it: ignoring the call would make the
+            # rest of the run wrong instead of incomplete
+            raise Unknown("method .%s() on a modelled %s is not modelled" % (m, "list" if isinstance(recv, MutList) else "map/set"))
         return OPAQUE
 
     def call_closure(self, c, args):
